@@ -172,3 +172,57 @@ def fn_propose(fn):
             "  match index_best.mapM (fun i => pc[i]?) with      -- numpy fancy indexing: IndexError on an index out of range\n"
             "  | none => none\n"
             f"  | some all_pos_comb_sorted => {pick}")
+
+
+FLOAT_TRAINING = ("X_sample = np.array(self.X_sample)", "Y_sample = np.array(self.Y_sample)", "Y_sample = normalize(Y_sample).reshape(-1, 1)",
+                  "self.regr.fit(X_sample, Y_sample)", "best_samples, worst_samples = self._get_samples()", "(best_samples, worst_samples) = self._get_samples()",
+                  "self.kd_best.fit(best_samples)", "self.kd_worst.fit(worst_samples)")
+
+
+def fn_training(cls_name, fn, fin, ei):
+    """`_training` of one surrogate class: numpy / sklearn statements are the oracle ("training succeeded or raised ValueError"); what is
+    translated is whether the method makes generator draws of its own (ForestOptimizer's `if len(Y_sample) == 0: return self.move_random()`)"""
+    early = False
+    for st in fn.body:
+        s = _u(st)
+        if s in FLOAT_TRAINING:
+            continue
+        if s == "if len(Y_sample) == 0:\n    return self.move_random()":
+            early = True
+            continue
+        raise Untranslatable(f"{cls_name}._training: `{s}`")
+    if [_u(x) for x in fin.body] != ["self.all_pos_comb = self._all_possible_pos()", "return super().finish_initialization()"]:
+        raise Untranslatable(f"{cls_name}.finish_initialization: " + " | ".join(_u(x) for x in fin.body))
+    if _u(ei.body[0]) != "self.pos_comb = self._sampling(self.all_pos_comb)":
+        raise Untranslatable(f"{cls_name}._expected_improvement no longer samples the candidates first: `{_u(ei.body[0])}`")
+    body = ("if y_sample_empty then\n    match moveRandomLoop tape with          -- if len(Y_sample) == 0: return self.move_random()\n"
+            "    | .error e => .error e\n    | .ok a => .ok a.2\n  else .ok tape") if early else ".ok tape"
+    return (f"/-- `{cls_name}._training`: the generator draws the method itself makes before the surrogate is fitted -/\n"
+            f"def {cls_name}_training_draws (y_sample_empty : Bool) (tape : Tape) : Except Err Tape :=\n  {body}")
+
+
+def fn_lipschitz_iterate(fn):
+    decs = [_u(d) for d in fn.decorator_list]
+    want = ["self.pos_comb = self._sampling(self.all_pos_comb)", "lip_func = LipschitzFunction(self.pos_comb)",
+            "upper_bound_l = lip_func.calculate(self.X_sample, self.Y_sample, self.score_best)", None,
+            "all_pos_comb_sorted = self.pos_comb[index_best]", None, "return pos_best"]
+    got = [_u(x) for x in fn.body]
+    if decs != ["SMBO.track_new_pos", "SMBO.track_X_sample"] or len(got) != 7 or any(a != w for a, w in zip(got, want) if w is not None):
+        raise Untranslatable(f"LipschitzOptimizer.iterate: {decs} {got}")
+    if got[3] == "index_best = list(upper_bound_l.argsort()[::-1])":
+        idx = "asc.reverse"
+    elif got[3] == "index_best = list(upper_bound_l.argsort())":
+        idx = "asc"
+    else:
+        raise Untranslatable("LipschitzOptimizer.iterate: " + got[3])
+    if got[5] == "pos_best = all_pos_comb_sorted[0]":
+        pick = "all_pos_comb_sorted[0]?"
+    elif got[5] == "pos_best = all_pos_comb_sorted[-1]":
+        pick = "all_pos_comb_sorted.getLast?"
+    else:
+        raise Untranslatable("LipschitzOptimizer.iterate: " + got[5])
+    return ("/-- `LipschitzOptimizer.iterate` (undecorated): `asc` is what `upper_bound_l.argsort()` returned, `pc` is `self.pos_comb` -/\n"
+            "def lipschitz_pick (pc : List Pos) (asc : List Nat) : Option Pos :=\n"
+            f"  let index_best := {idx}\n"
+            "  match index_best.mapM (fun i => pc[i]?) with\n  | none => none\n"
+            f"  | some all_pos_comb_sorted => {pick}")
